@@ -206,7 +206,7 @@ Step ==
             /\ UNCHANGED <<cfg, npre, nsamp, trig, truth, epoch, aepoch, oldcov, mxpre, prims, checked, conn, cyc, everConn, runA, runB>>
        [] e.ev = "EMDrop" ->
             \* edge-multi across data drops (frame numbers jump between blocks): only crash-freedom is demanded (C08)
-            /\ Report(WhenD(e.panic # "", "C08_nocrash", "data drop"))
+            /\ Report(WhenD(e.panic # "", "C08_nocrash", "data drop") \cup WhenD(e.panic # "", "C01_nocrash", "data drop"))
             /\ UNCHANGED <<cfg, npre, nsamp, trig, truth, epoch, aepoch, oldcov, mxpre, prims, checked, conn, cyc, everConn, runA, runB>>
        [] e.ev = "End" ->
             /\ Report((IF AnyEM THEN EMPreds(IF e.run = "A" THEN runA ELSE runB) ELSE {})
